@@ -1081,6 +1081,10 @@ func (c *codegen) Visit(node ast.Node) ast.Visitor {
 			}
 		}
 		if !found {
+			if v := c.capturedVar(n); v != nil {
+				c.prog.Err = fmt.Errorf("closures are not supported: function literal uses '%s' of the enclosing function", v.Name())
+				return nil
+			}
 			l = c.newLabel()
 			c.newLambda(l, n)
 		}
@@ -2724,6 +2728,33 @@ func (c *codegen) getFuncNameFromSelector(e *ast.SelectorExpr) (string, bool) {
 
 	ident := e.X.(*ast.Ident)
 	return c.getIdentName(ident.Name, e.Sel.Name), false
+}
+
+// capturedVar returns a variable of an enclosing function that the function
+// literal refers to (nil if there is none): such a literal is a closure.
+func (c *codegen) capturedVar(lit *ast.FuncLit) *types.Var {
+	var captured *types.Var
+	ast.Inspect(lit.Body, func(n ast.Node) bool {
+		id, ok := n.(*ast.Ident)
+		if !ok || captured != nil {
+			return captured == nil
+		}
+		var obj types.Object
+		for _, p := range c.packageCache {
+			if obj = p.TypesInfo.Uses[id]; obj != nil {
+				break
+			}
+		}
+		v, ok := obj.(*types.Var)
+		if !ok || v.IsField() || v.Pkg() == nil || v.Parent() == nil || v.Parent() == v.Pkg().Scope() {
+			return true
+		}
+		if v.Pos() < lit.Pos() || v.Pos() >= lit.End() {
+			captured = v
+		}
+		return true
+	})
+	return captured
 }
 
 func (c *codegen) newLambda(u uint16, lit *ast.FuncLit) {
